@@ -346,8 +346,30 @@ var unitNames = map[*core.Program]map[*ssa.Function]string{}
 // unitName names an analysis unit (closures by their creating unit).
 func unitName(p *core.Program, fn *ssa.Function) string {
 	units(p)
-	if n, ok := unitNames[p][p.Original(fn)]; ok {
+	o := p.Original(fn)
+	if n, ok := unitNames[p][o]; ok {
 		return n
+	}
+	// an unexported function that is a unit of its own (a recursive helper, a helper only used
+	// as a function value) is named by its receiver and signature: its identifier is private
+	if o.Parent() == nil && o.Object() != nil && !o.Object().Exported() && o.Name() != "init" {
+		qual := func(pk *types.Package) string { return pk.Name() }
+		sig := o.Signature
+		var ps []string
+		for i := 0; i < sig.Params().Len(); i++ {
+			ps = append(ps, types.TypeString(sig.Params().At(i).Type(), qual))
+		}
+		var rs []string
+		for i := 0; i < sig.Results().Len(); i++ {
+			rs = append(rs, types.TypeString(sig.Results().At(i).Type(), qual))
+		}
+		name := "‹func(" + strings.Join(ps, ",") + ")"
+		if len(rs) > 0 {
+			name += " " + strings.Join(rs, ",")
+		}
+		name += "›"
+		full := core.ShortKey(o)
+		return strings.TrimSuffix(full, o.Name()) + name
 	}
 	return core.ShortKey(fn)
 }
